@@ -23,6 +23,7 @@ type C17Case struct {
 	Root  *Node     `json:"root,omitempty"` // free / reset
 	RO    bool      `json:"ro,omitempty"`
 	Func  string    `json:"func,omitempty"` // pkgfunc
+	RejectingValidity bool `json:"rejecting_validity,omitempty"` // reset: the installed validity policy rejects the stack
 	Variant int     `json:"variant,omitempty"`
 }
 
@@ -268,7 +269,12 @@ func runC17Reset(c C17Case) (st Stats, err error) {
 	p := guard(func() {
 		s := BuildStack(*c.Root)
 		s.SetPushPolicy(nil)
-		s.SetValidityPolicy(func(...any) error { return nil })
+		if c.RejectingValidity {
+			// Reset is not a matter of validity: a stack its policy rejects must be emptied all the same
+			s.SetValidityPolicy(func(...any) error { return fmt.Errorf("rejected by the validity policy") })
+		} else {
+			s.SetValidityPolicy(func(...any) error { return nil })
+		}
 		s.SetID("the-id").SetCategory("the-cat")
 		before := configOnly(s)
 		s.Reset()
@@ -301,6 +307,9 @@ func runC17Reset(c C17Case) (st Stats, err error) {
 		return st, v
 	}
 	st.Class("reset")
+	if c.RejectingValidity {
+		st.Class("reset-under-rejecting-validity-policy")
+	}
 	if hasNil {
 		st.Class("reset-with-nil")
 	}
@@ -373,7 +382,7 @@ func genC17(t *rapid.T, tier Tier) C17Case {
 				root.Cap = len(root.Elems)
 			}
 		}
-		return C17Case{Mode: "reset", Root: &root}
+		return C17Case{Mode: "reset", Root: &root, RejectingValidity: rapid.IntRange(0, 3).Draw(t, "rejecting-validity") == 0}
 	case 2:
 		var root Node
 		if rapid.Bool().Draw(t, "cond") {
@@ -420,7 +429,7 @@ func init() {
 		Run:      runC17,
 		Enum:     enumC17,
 		EnumNote: "all reflected methods x 8 variants x 6 receiver states, all package-level functions x 24 variants",
-		Floors:   map[string]float64{"reset-with-nil": 0.05, "free-read-only": 0.02, "pkgfunc": 0.03, "state:freed-stack": 0.05, "state:nil-aux": 0.03, "initialising-call": 0.005, "free-cond-holding-read-only-stack": 0.002},
+		Floors:   map[string]float64{"reset-with-nil": 0.05, "free-read-only": 0.02, "pkgfunc": 0.03, "state:freed-stack": 0.05, "state:nil-aux": 0.03, "initialising-call": 0.005, "free-cond-holding-read-only-stack": 0.002, "reset-under-rejecting-validity-policy": 0.02},
 		Assumptions: []string{"string results may be empty or a documented placeholder; Is* predicates (IsZero, IsEmpty, IsPadded) are not asserted on inert receivers", "package-level default loggers/levels are restored after each package-function call"},
 	})
 }
